@@ -967,6 +967,22 @@ def extra_models():
             h.make_node("Add", ["P", "c"], ["s"]), h.make_node("Mul", ["s", "df"], ["R"])],
            [h.make_tensor_value_info("P", F, [2, 2])], [h.make_tensor_value_info("R", F, [2, 2])])
     out.append(("const2d", True, m, [{"P": a}]))
+    # small constants of rank 2 whose uses have NO same-typed tensor sibling (a lookup table, the branches of a Where):
+    # their element type must survive the round trip on its own
+    m = mk([h.make_node("Constant", [], ["tab"], value=h.make_tensor("v", F, [2, 2], [1.0, -2.0, 3.0, 4.5])),
+            h.make_node("Gather", ["tab", "P"], ["g"], axis=0),
+            h.make_node("Constant", [], ["ca"], value=h.make_tensor("v", F, [2, 1], [0.5, -0.5])),
+            h.make_node("Constant", [], ["cb"], value=h.make_tensor("v", F, [2, 1], [7.0, 9.0])),
+            h.make_node("Constant", [], ["zero"], value=h.make_tensor("v", I, [], [0])),
+            h.make_node("Greater", ["P", "zero"], ["pos"]), h.make_node("Unsqueeze", ["pos", "ax1"], ["pos2"]),
+            h.make_node("Constant", [], ["ax1"], value=h.make_tensor("v", I, [1], [1])),
+            h.make_node("Where", ["pos2", "ca", "cb"], ["w"]), h.make_node("Add", ["g", "w"], ["R"])],
+           [h.make_tensor_value_info("P", I, [2])], [h.make_tensor_value_info("R", F, [2, 2])])
+    order2 = ["tab", "ca", "cb", "zero", "ax1"]
+    nodes = sorted(m.graph.node, key=lambda n: (0 if n.output[0] in order2 else 1))
+    del m.graph.node[:]
+    m.graph.node.extend(nodes)
+    out.append(("const2d_nosibling", True, m, [{"P": np.array([1, 0], dtype=np.int64)}, {"P": np.array([0, 0], dtype=np.int64)}]))
     # initializers: small / large, float / int8, names needing clean-up
     w = h.make_tensor("layer.0.weight", F, [2, 3], [1, 2, 3, 4, 5, 6.0])
     bq = h.make_tensor("1bias", F, [3], [0.5, -0.5, 1.0])
